@@ -51,7 +51,9 @@ def warm():
 
 
 # ------------------------------------------------------------------------------------------------ generation
-STEMS = ["report", "data set", "Notes", "a", "ünï", "x-1", "UPPER", "v1.2", "readme", "2024_q1", "report_一", "rĀga", "日本語", "a\u0100b", "emoji_😀"]
+STEMS = ["report", "data set", "Notes", "a", "ünï", "x-1", "UPPER", "v1.2", "readme", "2024_q1", "report_一", "rĀga", "日本語", "a\u0100b", "emoji_😀",
+         # ordinary names that begin like another container's signature (a plain TAR starts with its first member's name)
+         "BZ2024 budget", "BZh9", "PK-list", "7zip notes"]
 DIRS = ["", "", "docs/", "docs/sub/", "a b/", "Ünï/", "./", "./docs/"]
 
 
@@ -426,6 +428,8 @@ def shrink(case):
             continue
         c = copy.deepcopy(case)
         del c["spec"]["members"][i]
+        if spec["fmt"] == "tar" and not any(m["kind"] == "file" for m in c["spec"]["members"]):
+            continue  # outside the generated space: a plain TAR without a header carries no signature (see gen_case)
         if focus and ms[i]["kind"] == "file" and files_idx.index(i) < focus[0][0]:
             c["faults"] = [[focus[0][0] - 1] + focus[0][1:]]
         if c["spec"].get("7z", {}).get("layout") == "groups":
